@@ -1,0 +1,63 @@
+//go:build verif
+
+// Copyright 2023 StreamNative, Inc.
+//
+// Licensed under the Apache License, Version 2.0 (the "License");
+// you may not use this file except in compliance with the License.
+// You may obtain a copy of the License at
+//
+//     http://www.apache.org/licenses/LICENSE-2.0
+//
+// Unless required by applicable law or agreed to in writing, software
+// distributed under the License is distributed on an "AS IS" BASIS,
+// WITHOUT WARRANTIES OR CONDITIONS OF ANY KIND, either express or implied.
+// See the License for the specific language governing permissions and
+// limitations under the License.
+
+package oxia
+
+import (
+	"context"
+	"io"
+	"time"
+
+	"google.golang.org/grpc"
+	"google.golang.org/grpc/health/grpc_health_v1"
+
+	"github.com/oxia-db/oxia/proto"
+)
+
+// VerifOpenNotifications is what the verification harness supplies instead of the GetNotifications RPC.
+type VerifOpenNotifications func(ctx context.Context, req *proto.NotificationsRequest) (proto.OxiaClient_GetNotificationsClient, error)
+
+type verifNotifClient struct {
+	proto.OxiaClientClient
+	open VerifOpenNotifications
+}
+
+func (c verifNotifClient) GetNotifications(ctx context.Context, in *proto.NotificationsRequest, _ ...grpc.CallOption) (proto.OxiaClient_GetNotificationsClient, error) {
+	return c.open(ctx, in)
+}
+
+type verifNotifPool struct{ open VerifOpenNotifications }
+
+func (verifNotifPool) Close() error { return nil }
+func (p verifNotifPool) GetClientRpc(string) (proto.OxiaClientClient, error) {
+	return verifNotifClient{open: p.open}, nil
+}
+func (verifNotifPool) GetHealthRpc(string) (grpc_health_v1.HealthClient, io.Closer, error) {
+	return nil, nil, io.EOF
+}
+func (verifNotifPool) GetCoordinationRpc(string) (proto.OxiaCoordinationClient, error) {
+	return nil, io.EOF
+}
+func (verifNotifPool) GetReplicationRpc(string) (proto.OxiaLogReplicationClient, error) {
+	return nil, io.EOF
+}
+func (verifNotifPool) Clear(string) {}
+
+// VerifNewNotifications builds the client's notifications manager over the given shards, with the
+// GetNotifications RPC supplied by the harness.
+func VerifNewNotifications(ctx context.Context, open VerifOpenNotifications, shards []int64, timeout time.Duration) (Notifications, error) {
+	return newNotifications(ctx, clientOptions{requestTimeout: timeout}, verifNotifPool{open: open}, &verifShards{ids: shards})
+}
